@@ -7,18 +7,28 @@ MODULES = ["TinsModel.Props.C17", "TinsModel.Props.Limits.C17"]   # + the consta
 AUDIT = ["Audit/C17.lean", "Audit/LimitsC17.lean"]
 LEVEL = "proof"
 MANIFEST = dict(
-    text="Lean 4 theorems over a code-shaped executable model of BaseSniffer::next_packet / sniff_loop / SnifferIterator, "
-         "the per-link-type handlers, Timestamp and PacketWriter::write on top of a model of the pcap savefile format "
-         "(dispatch table, catch clauses, writer link types and snapshot length regenerated from the source on every run), "
-         "tied to the code by a differential harness that writes real capture files with PacketWriter and reads them with "
-         "FileSniffer (next_packet, sniff_loop, range-for; pcap_loop, pcap_dispatch and an exact-size-copy sniffing method "
-         "under ASan/UBSan; with and without BPF filters, compared with pcap_offline_filter called directly) and by a spec "
-         "oracle (frames_out = [f | filter(f) and parses(f)], byte-identical, timestamps, clean end, no escape, no leak).",
-    note="Trusted: Lean kernel + standard axioms; libpcap's savefile reader/writer and BPF engine (modelled as the assumed "
-         "environment, exercised not proved); the dissectors are an abstract oracle here (their outcome on each frame is "
-         "obtained by calling the constructors directly) — their correctness is C01/C03's subject; harness + generators.",
-    technique="Lean 4 proof (induction over the frame list, refinement loop -> filterMap, encode/decode round trip) + "
-              "model/implementation correspondence on real pcap files",
+    text="Lean 4 theorems over code-shaped executable models of (a) BaseSniffer as a state machine over ANY sequence of "
+         "public calls on one live sniffer (next_packet, sniff_loop, iteration, set_extract_raw_pdus, set_filter valid / "
+         "empty / not compiling, set_pcap_sniffing_method, stop_sniff also from inside the functor, move construction / "
+         "assignment mid-capture, link_type), the per-link-type handlers and Timestamp, (b) PacketWriter as a state machine "
+         "over any interleaving of write(PDU&) / write(T&) / write(Packet&) / write(begin,end) and moves of the live writer, "
+         "on top of a model of the pcap savefile format whose assumed facts are named hypotheses (SavefileFacts, ReadFacts); "
+         "dispatch table, catch clauses, writer link types and snapshot length are regenerated from the source on every run. "
+         "Tied to the code by a differential harness that writes real capture files with PacketWriter through every write "
+         "call (wall-clock stamps checked against two gettimeofday readings, whole file compared byte for byte with the "
+         "model's encodeFile for every link type and for stamps at the 32-bit boundaries) and reads them with FileSniffer "
+         "through single reads and scripted sessions of calls (pcap_loop, pcap_dispatch and an exact-size-copy sniffing method "
+         "under ASan/UBSan; BPF filters compared with pcap_offline_filter called directly) and by a spec oracle evaluated "
+         "frame by frame under the raw mode and filter in force (frames_out, byte-identical, timestamps, sticky clean end, "
+         "stop_sniff interrupts once, no escape but the functor's own exceptions, no leak).",
+    note="Trusted: Lean kernel + standard axioms; libpcap's savefile reader/writer and BPF engine (the facts assumed about "
+         "them are the structures SavefileFacts / ReadFacts; the byte-level model satisfying them is compared with the real "
+         "library on every file and every frame, not proved about libpcap); the dissectors are an abstract oracle here (their "
+         "outcome on each frame is obtained by calling the constructors directly) — their correctness is C01/C03's subject; "
+         "harness + generators.",
+    technique="Lean 4 proof (induction over call sequences with a ghost log of the frames each next_packet moved past and "
+              "the configuration in force, refinement loop -> filterMap, encode/decode round trip over named libpcap "
+              "hypotheses) + model/implementation correspondence on real pcap files and scripted API sessions",
     design="DESIGN.md §6 C17")
 MANIFEST["note"] += (" Constants and limits of the C++ source that the model restates (translator/gen_limits.py -> Gen/Limits.lean: "
                      "compiled probe + preprocessed function bodies at named anchors) are tied to the model's numerals by the "
@@ -296,8 +306,10 @@ def gen_reads(rng, case, nframes, thorough):
             line += " f=" + flt
         return line
 
-    for _ in range(rng.randint(2, 5) if not thorough else rng.randint(3, 7)):
+    for _ in range(rng.randint(1, 3) if not thorough else rng.randint(3, 6)):
         ops.append(one_read())
+    for _ in range(rng.choice([0, 1, 1, 2]) if not thorough else rng.randint(1, 3)):
+        ops.append(gen_session(rng, case, nframes))
     if case["tok"].startswith("T:") and flt and rng.random() < 0.6:
         ops.append(f"offline {rng.choice(['pdu', 'buf'])} f={flt}")
     if rng.random() < 0.25:
@@ -305,6 +317,89 @@ def gen_reads(rng, case, nframes, thorough):
         ops.append(one_read())
         ops.append(one_read())
     return ops
+
+
+def gen_session(rng, case, nframes):
+    """a script of calls on ONE live FileSniffer: next_packet, sniff_loop, iteration, configuration calls (also from
+    inside the functor), stop_sniff, moves, link_type, interleaved at random"""
+    sf = case.get("sfilters", [])
+    n = max(1, nframes)
+
+    def side():
+        if rng.random() < 0.6:
+            return "-"
+        acts = ["ss", "r0", "r1", "fe"] + [f"f{k}" for k in range(len(sf))]
+        return "+".join(f"{rng.randrange(min(n, 3))}.{rng.choice(acts)}" for _ in range(rng.randint(1, 2)))
+
+    def tok():
+        r = rng.random()
+        if r < 0.22:
+            return "np"
+        if r < 0.40:
+            mx = rng.choice([0, 1, 1, 2, 2, 3, n, rng.randint(1, n)])
+            stop = rng.choice([0, 0, 1, 2, rng.randint(1, n)])
+            thr = "-"
+            if rng.random() < 0.4:
+                idx = sorted(set(rng.randrange(min(n, 4)) for _ in range(rng.randint(1, 3))))
+                thr = "+".join(f"{i}.{rng.choice(['mal', 'nf', 'mal', 'nf', 'oth'])}" for i in idx)
+            return f"loop:{mx}:{stop}:{thr}:{rng.choice(['k', 'k', 'u'])}:{side()}"
+        if r < 0.55:
+            return f"iter:{rng.choice([0, 1, 1, 2, 2, rng.randint(1, n)])}:{rng.choice([0, 0, 1])}:{side()}"
+        if r < 0.65:
+            return f"raw:{rng.randrange(2)}"
+        if r < 0.75:
+            return "filt:" + (str(rng.randrange(len(sf))) if sf and rng.random() < 0.8 else "e")
+        if r < 0.79:
+            return f"bad:{rng.randrange(6)}"
+        if r < 0.84:
+            return "meth:" + rng.choice("ldx")
+        if r < 0.89:
+            return "mvc"
+        if r < 0.94:
+            return "mva"
+        if r < 0.97:
+            return "ss"
+        return "lt"
+
+    script = [tok() for _ in range(rng.randint(2, 9))]
+    if rng.random() < 0.9:
+        script.append("drain")
+    init = str(rng.randrange(len(sf))) if sf and rng.random() < 0.3 else "none"
+    line = f"session src={'fp' if rng.random() < 0.2 else 'name'} init={init} s={','.join(script)}"
+    return line + "".join(" |f| " + f for f in sf)
+
+
+def gen_wplan(rng, frames):
+    """how the frames reach the writer: write(Packet&), write(PDU&), write(T&), write(begin, end) over several
+    containers, with moves of the live writer in between; returns the plan and the frames (wall-clock written ones
+    get a scripted clock reading the file format can hold; by-value ranges hold RawPDUs)"""
+    plan, i, n = [], 0, len(frames)
+    frames = list(frames)
+
+    def wall(j, raw=False):
+        how, _, _, b = frames[j]
+        sec, usec = rng.choice([(rng.randrange(0, 2**31), rng.randrange(0, 10**6)), (0, 0), (2**31 - 1, 999999)])
+        frames[j] = ("raw" if raw else how, sec, usec, b)
+
+    while i < n:
+        r = rng.random()
+        if r < 0.55:
+            plan.append(("w", i)); i += 1
+        elif r < 0.70:
+            wall(i); plan.append(("wp", i)); i += 1
+        elif r < 0.78:
+            wall(i); plan.append(("wq", i)); i += 1
+        else:
+            k = min(n - i, rng.choice([0, 1, 2, 3, 5]))
+            kind = rng.choice(["val", "ptr", "uptr", "sptr", "list"])
+            for j in range(i, i + k):
+                wall(j, raw=(kind == "val"))
+            plan.append(("range", kind, list(range(i, i + k)))); i += k
+        if rng.random() < 0.08:
+            plan.append((rng.choice(["wmv", "wma"]),))
+    if rng.random() < 0.1:
+        plan.append(("range", rng.choice(["val", "ptr", "list"]), []))
+    return plan, frames
 
 
 def gen_case(rng, toks, valid_filters, thorough, big=False):
@@ -321,7 +416,12 @@ def gen_case(rng, toks, valid_filters, thorough, big=False):
             how = "pdu:" + rng.choice(PDU_CLASS[dlt])
         sec, usec = gen_ts(rng)
         frames.append((how, sec, usec, b))
-    return dict(tok=tok, dlt=dlt, method=method, filter=flt, frames=frames)
+    c = dict(tok=tok, dlt=dlt, method=method, filter=flt, frames=frames)
+    if fl and rng.random() < 0.6:
+        c["sfilters"] = rng.sample(fl, min(len(fl), rng.randint(1, 3)))
+    if rng.random() < 0.5 and not big:
+        c["wplan"], c["frames"] = gen_wplan(rng, frames)
+    return c
 
 
 def regression_cases():
@@ -386,19 +486,34 @@ def build_ops(chk, exe, cases, excluded):
         key = tag + " " + (a.split(" ")[1].split("@")[-1] if a.startswith("FAULT") and " " in a else a.split(" ")[0])
         excluded[key] = excluded.get(key, 0) + 1
 
+    # pass 3: what a savefile-compiled program of every session filter says about the stored bytes
+    lines3, where3 = [], []
+    for key in where2:
+        c = cases[key[0]]
+        a = ann1[key].split(" ")
+        for k, f in enumerate(c.get("sfilters", [])):
+            lines3.append(f"annf {c['dlt']} {a[1][4:]} {a[0][2:]} f={f}")
+            where3.append((key, k))
+    res3, _ = core.run_harness_lines(exe, args, lines3, ("ann", "annp", "annf")) if lines3 else ([], [])
+    xbits = {}
+    for (key, k), r in zip(where3, res3):
+        xbits.setdefault(key, {})[k] = "1" if r == "x=1" else "0"
+
     ops = []
     for ci, c in enumerate(cases):
         ops.append(f"file {c['tok']} {c['method']}")
         kept = 0
+        nsf = len(c.get("sfilters", []))
+        tails = {}
         for fi, (how, sec, usec, b) in enumerate(c["frames"]):
             a = ann1.get((ci, fi), "")
             if a.startswith("s=throw:"):
-                ops.append(f"w {how} {sec} {usec} {hexs(b)} | {a}")
+                tails[fi] = f"{how} {sec} {usec} {hexs(b)} | {a}"
                 continue
             if not a.startswith("s="):
                 if how == "raw":
                     # the writer's own path (RawPDU::serialize, pcap) failed in the direct call: keep the frame
-                    ops.append(f"w {how} {sec} {usec} {hexs(b)} | s={hexs(b)} adv={len(b)} m=1 mo=1 p:RawPDU=ok:0/{len(b)}/0")
+                    tails[fi] = f"{how} {sec} {usec} {hexs(b)} | s={hexs(b)} adv={len(b)} m=1 mo=1 p:RawPDU=ok:0/{len(b)}/0"
                     kept += 1
                 else:
                     drop("write-side", a)
@@ -407,16 +522,33 @@ def build_ops(chk, exe, cases, excluded):
             if not p.startswith("p:"):
                 drop("dissector", p)
                 continue
-            ops.append(f"w {how} {sec} {usec} {hexs(b)} | {a} {p}")
+            x = ""
+            if nsf:
+                x = " x=" + "".join(xbits.get((ci, fi), {}).get(k, "0") for k in range(nsf))
+            tails[fi] = f"{how} {sec} {usec} {hexs(b)} | {a}{x} {p}"
             kept += 1
+        plan = c.get("wplan") or [("w", fi) for fi in range(len(c["frames"]))]
+        for step in plan:
+            if step[0] in ("w", "wp", "wq"):
+                if step[1] in tails:
+                    ops.append(f"{step[0]} {tails[step[1]]}")
+            elif step[0] == "range":
+                ops.append(f"wr-begin {step[1]}")
+                ops += [f"wr-item {tails[fi]}" for fi in step[2] if fi in tails and "| s=throw:" not in tails[fi]]
+                ops.append("wr-end")
+            else:
+                ops.append(step[0])
         ops += c["tail"](kept) if callable(c.get("tail")) else c.get("tail", [])
     return ops
 
 
 def classify(op, impl):
     w = op.split(" ")
-    if w[0] == "w":
-        tag = "w:" + w[1].split(":")[0]
+    if w[0] == "session":
+        kinds = sorted(set(t.split(":")[0] for t in next((x[2:] for x in w if x.startswith("s=")), "").split(",")))
+        return "session:" + "+".join(kinds)[:60] + (":escape" if "escape" in impl else "")
+    if w[0] in ("w", "wp", "wq", "wr-item"):
+        tag = w[0] + ":" + w[1].split(":")[0]
         if " p:" in op:
             outs = [x.split("=", 1)[1].split(":")[0] for x in op.split(" ") if x.startswith("p:") and not x.startswith("p:RawPDU")]
             tag += ":" + ("parses" if "ok" in outs else "exc" if "exc" in outs else "malformed")
@@ -488,10 +620,34 @@ def run(chk):
     for tok, dlt in unsupported:
         reg.append(dict(tok=tok, dlt=dlt, method="loop", filter="", frames=[],
                         tail=["close", "read api=next filt=none raw=0"]))
+    # every link type of the writer's API x time stamps at the boundaries of the 32-bit file fields: the bytes pcap_dump
+    # wrote are compared with the model's encodeFile (size and hash of the whole file), then read back
+    ip4 = bytes.fromhex("4500001c000100004011f97b0a0000010a00000200350035000800001122")
+    stamps = [(0, 0), (0, 999999), (1, 1000000), (2**31 - 1, 999999), (2**31, 0), (2**32 - 1, 999999), (2**32, 0),
+              (2**32 + 1, 5), (-1, 0), (-(2**31), 0), (1700000000, 1999999), (2**31 - 2, 1999999)]
+    for tok, dlt in toks:
+        reg.append(dict(tok=tok, dlt=dlt, method="exact", filter="",
+                        frames=[("raw", sec, usec, BUILDERS[dlt](random.Random(7 + i)) if i % 2 else ip4)
+                                for i, (sec, usec) in enumerate(stamps)],
+                        tail=["close", "read api=next filt=none raw=1", "read api=next filt=none raw=0",
+                              "session src=name init=none s=lt,np,loop:2:0:-:k:-,iter:1:1:-,mvc,raw:1,np,mva,drain"]))
+    # the other write calls: wall-clock stamped write(PDU&) / write(T&) / write(begin, end) over every container, moves of the
+    # live writer mid-file, an advertised size that differs from the serialized size (IP total length beyond the capture)
+    ip_long = bytes.fromhex("450005dc000100004011f97b0a0000010a00000200350035000800001122")
+    for kind in ["val", "ptr", "uptr", "sptr", "list"]:
+        fr = [("raw", 5, 5, ip4), ("raw", 2**31 - 1, 999999, b""), ("pdu:IP", 0, 0, ip_long), ("raw", 9, 9, ip4[:9]),
+              ("pdu:IP", 77, 7, ip_long), ("raw", 8, 8, ip4)]
+        if kind == "val":
+            fr = [("raw",) + f[1:] for f in fr]
+        reg.append(dict(tok="T:IP", dlt=12, method="exact", filter="", frames=fr,
+                        wplan=[("w", 0), ("range", kind, [1, 2, 3]), ("wmv",), ("wp", 4), ("wma",), ("wq", 5),
+                               ("range", kind, [])],
+                        tail=["close", "read api=next filt=none raw=1", "read api=loop filt=none raw=0 max=2",
+                              "session src=name init=none s=np,ss,np,np,raw:1,loop:0:0:1.mal+2.oth:k:0.ss,drain"]))
     # frames of unsupported DLTs cannot be annotated with CLASSES; they have no frames
     run_batch(reg)
     # 2. seeded random cases
-    ncases = 3000 if not thorough else 60000
+    ncases = 3000 if not thorough else 36000      # sessions and the extra write calls make a case ~1.5x as long as before
     batch = 500 if not thorough else 1000
     done = 0
     while done < ncases:
@@ -516,26 +672,44 @@ def run(chk):
             chk.violation("proof obligation no longer checks: " + p[:1500], ["theorem-or-audit-failure", p[:4000]], nofail=True)
     chk.cov["rule"] = ("case = one capture file written with PacketWriter (link type token, frames = well-formed packets of "
                        "the link type / mutations / arbitrary bytes incl. empty, timestamps incl. carries and 32-bit "
-                       "overflow) then read back through next_packet / sniff_loop / range-for with scripted functors, "
-                       "filters, truncated files; distinct_nontrivial counts distinct (operation, implementation result) pairs")
+                       "overflow; written through write(Packet&), wall-clock write(PDU&) / write(T&), write(begin,end) over five "
+                       "containers, with moves of the live writer) then read back through next_packet / sniff_loop / range-for "
+                       "with scripted functors, filters, truncated files, and through scripted sessions of calls on one live "
+                       "sniffer; distinct_nontrivial counts distinct (operation, implementation result) pairs")
     chk.extra["frames_excluded_because_direct_dissection_failed"] = excluded
     chk.extra["filters_per_dlt"] = {str(k): len(v) for k, v in valid_filters.items()}
     chk.extra["modelled_not_proved"] = [
-        "libpcap savefile reader/writer and BPF engine (assumed environment; compared on every frame)",
+        "libpcap savefile reader/writer and BPF engine: assumed environment, stated as SavefileFacts (dump/open round trip) "
+        "and ReadFacts R1-R4 (one call of a sniffing method: break_loop, end of file, filter rejects, filter accepts); the "
+        "byte-level model is proved to satisfy them and is compared with libpcap on every file (whole-file size + hash "
+        "against encodeFile, every link type, stamps at the 32-bit boundaries) and every frame",
         "dissector outcomes are an oracle obtained from direct constructor calls (subject of C01/C03)",
-        "exception unwinding through libpcap's C frames (observed, not modelled)",
-        "PacketWriter::write(PDU&) with the wall-clock time stamp (not exercised)"]
+        "exception unwinding through libpcap's C frames (observed, not modelled; a session is abandoned after one)",
+        "the value of the wall clock: write(PDU&) / write(T&) / write(begin,end) take the gettimeofday reading as an input of "
+        "the model; the harness checks that the stored stamp lies between two readings taken around the call and then "
+        "replaces it by the scripted one so that the file stays deterministic",
+        "write(begin,end) over a range of Packet objects does not compile (dereference_until_pdu has no overload for "
+        "Packet): the API offers it for PDUs and (smart) pointers only, which is what is exercised"]
+    chk.extra["theorems_sessions"] = [
+        "session_filtermap", "session_end_sticky", "stop_sniff_interrupts_once", "sniff_loop_only_functor_exceptions",
+        "sniffer_move", "writer_session_roundtrip", "writer_session_roundtrip_model", "packet_stamp_roundtrip",
+        "readFacts_readOne", "readFacts_unique", "modelSavefile_facts"]
     chk.assumptions += [
         "libpcap 1.10 savefile semantics: 32-bit signed time fields, frames longer than the declared snapshot length "
         "are cut, capture lengths above 262144 and short records end the file with an error",
-        "a sniffing method returns >= 0 after delivering one frame or at the end of file, < 0 on error",
+        "a sniffing method called with cnt = 1 on a savefile handle behaves as ReadFacts R1-R4 say: break_loop set -> cleared, "
+        "nothing read, handler not called (pcap_loop / pcap_dispatch return -2, the harness's pcap_next_ex method 0); end of "
+        "file -> 0 (or -1 once after a broken record) without calling the handler; frames the installed program rejects are "
+        "dropped within the call; an accepted frame is handed to the handler once and >= 0 comes back",
+        "pcap_setfilter replaces the installed program; pcap_compile of an expression that does not compile returns -1 and "
+        "changes nothing; the empty expression compiles to accept-all",
         "time stamps with seconds >= 2^31 or negative are outside the file format; their round trip is not demanded",
         "Ethernet length/type values 1501..2047 and frames shorter than 14 bytes: the oracle accepts either dissector",
         "libpcap compiles some expressions differently for a savefile handle than for a pcap_open_dead handle (e.g. "
         "`ip6` on DLT_NULL checks the BSD AF_INET6 values for a savefile, this host's value otherwise): the sniffer's "
         "filter is compared with a program compiled on a savefile handle, OfflinePacketFilter with one compiled on a dead handle",
-        "PacketWriter move assignment / move construction and FileSniffer move construction are exercised by the "
-        "correspondence (rotate, mv=1) but have no Lean theorem"]
+        "configuration calls a functor makes on the sniffer are modelled as taking effect before the functor returns or "
+        "throws (the scripted functor of the harness makes them first)"]
     chk.trusted += ["correspondence harness harness/c17_capture.cpp + generators in checks/C17.py",
                     "translator/gen_c17.py (preprocessor + regular expressions over src/sniffer.cpp and the writer headers)",
                     "g++ 12 / ASan+UBSan build of the repo's working tree; libpcap 1.10.3"]
